@@ -175,11 +175,13 @@ type state struct {
 	rel   map[relKey]int64              // len(x) ≥ v + c
 	alias map[types.Object]types.Object // n == len(x)
 	par   map[types.Object]int          // parity of len(x) (slice / string variables) or of v (integer variables)
+	lge   map[relKey]int64              // len(x) ≥ len(v) + c   (v a slice / string variable here)
 }
 
 func newState() *state {
 	return &state{lens: map[types.Object]lenset{}, lo: map[types.Object]int64{}, hi: map[types.Object]int64{},
-		rel: map[relKey]int64{}, alias: map[types.Object]types.Object{}, par: map[types.Object]int{}}
+		rel: map[relKey]int64{}, alias: map[types.Object]types.Object{}, par: map[types.Object]int{},
+		lge: map[relKey]int64{}}
 }
 
 func deadState() *state { s := newState(); s.dead = true; return s }
@@ -204,6 +206,9 @@ func (s *state) clone() *state {
 	}
 	for k, v := range s.par {
 		n.par[k] = v
+	}
+	for k, v := range s.lge {
+		n.lge[k] = v
 	}
 	return n
 }
@@ -260,6 +265,14 @@ func joinState(a, b *state) *state {
 			n.par[k] = v
 		}
 	}
+	for k, v := range a.lge {
+		if w, ok := b.lge[k]; ok {
+			if w < v {
+				v = w
+			}
+			n.lge[k] = v
+		}
+	}
 	return n
 }
 
@@ -278,6 +291,11 @@ func (s *state) kill(obj types.Object) {
 	for k := range s.rel {
 		if k.x == obj || k.v == obj {
 			delete(s.rel, k)
+		}
+	}
+	for k := range s.lge {
+		if k.x == obj || k.v == obj {
+			delete(s.lge, k)
 		}
 	}
 }
@@ -319,10 +337,19 @@ func (s *state) refineLen(x types.Object, set lenset) {
 }
 
 func (s *state) minLen(x types.Object) (int64, bool) {
+	best, found := int64(0), false
 	if l, ok := s.lens[x]; ok && len(l) > 0 {
-		return l.min(), true
+		best, found = l.min(), true
 	}
-	return 0, false
+	for k, c := range s.lge { // len(x) ≥ len(z) + c
+		if k.x != x {
+			continue
+		}
+		if l, ok := s.lens[k.v]; ok && len(l) > 0 && (l.min()+c > best || !found) && l.min()+c >= 0 {
+			best, found = l.min()+c, true
+		}
+	}
+	return best, found
 }
 
 // ------------------------------------------------------------------------------------------------ package loading
@@ -836,6 +863,14 @@ func (a *analyser) relBound(st *state, x types.Object, l linForm, extra int64) (
 	if c, ok := st.rel[relKey{x, l.obj}]; ok {
 		cands = append(cands, [2]int64{need, c})
 	}
+	for k, c1 := range st.lge { // len(x) ≥ len(z) + c1 and len(z) ≥ v + c2
+		if k.x == x {
+			if c2, ok := st.rel[relKey{k.v, l.obj}]; ok {
+				cands = append(cands, [2]int64{need, c1 + c2})
+			}
+		}
+	}
+	sort.Slice(cands, func(i, j int) bool { return cands[i][1]-cands[i][0] > cands[j][1]-cands[j][0] })
 	if hi, ok := st.hi[l.obj]; ok {
 		if m, ok := st.minLen(x); ok {
 			cands = append(cands, [2]int64{hi + need, m})
@@ -1400,6 +1435,7 @@ type valFact struct {
 	rels    map[types.Object]int64 // len(x) ≥ lhs + c
 	hasPar  bool
 	par     int
+	lge     map[types.Object]int64 // len(lhs) ≥ len(z) + c
 }
 
 func (a *analyser) valueOf(lhsType types.Type, rhs ast.Expr, st *state) valFact {
@@ -1487,6 +1523,8 @@ func (a *analyser) valueOf(lhsType types.Type, rhs ast.Expr, st *state) valFact 
 		case a.builtin(v.Fun, "make") && len(v.Args) >= 2:
 			if n, ok := a.constInt(v.Args[1]); ok && n >= 0 {
 				f.lens = lenset{{n, n}}
+			} else if l := a.lin(v.Args[1], st); l.kind == lfLen {
+				f.lge = map[types.Object]int64{l.obj: l.c}
 			}
 		case a.builtin(v.Fun, "append") && len(v.Args) >= 1 && v.Ellipsis == token.NoPos:
 			base := int64(0)
@@ -1546,6 +1584,13 @@ func (a *analyser) install(st *state, obj types.Object, f valFact) {
 	}
 	if f.lens != nil && !f.lens.isTop() && isLenType(obj.Type()) {
 		st.lens[obj] = f.lens
+	}
+	if isLenType(obj.Type()) {
+		for z, c := range f.lge {
+			if z != obj {
+				st.lge[relKey{obj, z}] = c
+			}
+		}
 	}
 	if isIntType(obj.Type()) {
 		if f.hasLo {
@@ -2261,10 +2306,7 @@ func (a *analyser) rangeAppend(v *ast.RangeStmt, before, after *state) {
 	if _, isSlice := x.Type().Underlying().(*types.Slice); !isSlice {
 		return // ranging over a string yields runes, not bytes
 	}
-	mx, ok := before.minLen(x)
-	if !ok || mx == 0 {
-		return
-	}
+	mx, _ := before.minLen(x)
 	if _, reassigned := a.assignedIn(v.Body)[x]; reassigned {
 		return
 	}
@@ -2315,6 +2357,9 @@ func (a *analyser) rangeAppend(v *ast.RangeStmt, before, after *state) {
 			continue
 		}
 		base, _ := before.minLen(y)
-		after.lens[y] = lenset{{base + int64(len(call.Args)-1)*mx, inf}}
+		if n := base + int64(len(call.Args)-1)*mx; n > 0 {
+			after.lens[y] = lenset{{n, inf}}
+		}
+		after.lge[relKey{y, x}] = 0
 	}
 }
